@@ -1,7 +1,9 @@
 (* C01 property theorems.  Nothing but statements closed by `exact`, each followed by
    Print Assumptions.  `code_*` are the functions regenerated from _split.py on this run. *)
 From Coq Require Import ZArith List Bool.
+From Coq Require Import Sorted Permutation.
 Require Import SkV.Lib.Base SkV.Lib.ZRange SkV.C01.Model SkV.C01.Gen SkV.C01.Bridge SkV.C01.Proofs.
+Require Import SkV.C01.Model2 SkV.C01.Gen2 SkV.C01.Bridge2 SkV.C01.Proofs2.
 Import ListNotations.
 Open Scope Z_scope.
 
@@ -114,6 +116,59 @@ Proof. exact code_tts_fh_absolute. Qed.
 Print Assumptions C01_code_tts_fh_absolute.
 
 (* hypotheses are satisfiable by a non-trivial configuration *)
+(* ---- second generation: check_cutoffs as code, the dispatch of temporal_train_test_split and its
+   exogenous slices (Gen2.v, regenerated on this run) -------------------------------------------- *)
+
+(* CutoffSplitter with cutoffs in any order: every split sound; the splits come in increasing order
+   of the given cutoffs, each exactly once; get_cutoffs / get_n_splits report exactly those *)
+Theorem C01_cutoff_any_sound : forall nn f w cs l,
+  valid_fh f -> 1 <= w -> (forall c, In c cs -> 0 <= c) -> code_cutoff_any nn f w cs = Ok l ->
+  Forall (split_ok nn f) l /\ Permutation (map (split_cutoff f) l) cs /\
+  LocallySorted Z.le (map (split_cutoff f) l) /\
+  gen_cutoff_cutoffs_any cs = Ok (map (split_cutoff f) l) /\
+  Z.of_nat (length l) = gen_cutoff_n_splits cs.
+Proof. exact code_cutoff_any_sound. Qed.
+Print Assumptions C01_cutoff_any_sound.
+
+Theorem C01_cutoff_any_rejects_iff : forall nn f w cs,
+  valid_fh f -> (forall c, In c cs -> 0 <= c) ->
+  (code_cutoff_any nn f w cs = Err <->
+   (cs = [] \/ zmax_list (csort cs) >= nn \/ zmax_list (csort cs) + zmax_list f >= nn)).
+Proof. exact code_cutoff_any_rejects_iff. Qed.
+Print Assumptions C01_cutoff_any_rejects_iff.
+
+(* temporal_train_test_split: horizon and sizes exclude each other; otherwise the horizon split /
+   the size split (sklearn's unshuffled splitter = the size rule of C01_tts_partition) *)
+Theorem C01_tts_dispatch : forall lo nn (rel : bool) f te tr,
+  (if rel then valid_fh f /\ zlast f < nn
+   else f <> [] /\ sorted_lt f /\ lo < zfirst f /\ zlast f < lo + nn) ->
+  ((te <> None \/ tr <> None) ->
+   gen_tts tts_positions (zrange lo (lo + nn) 1) rel nn tt te tr (Some f) = Err) /\
+  gen_tts tts_positions (zrange lo (lo + nn) 1) rel nn tt None None (Some f) =
+    (if rel then tts_fh_relative_at lo nn f else tts_fh_absolute lo nn f) /\
+  gen_tts tts_positions (zrange lo (lo + nn) 1) rel nn tt te tr None = tts_positions nn te tr.
+Proof. exact code_tts_dispatch. Qed.
+Print Assumptions C01_tts_dispatch.
+
+(* horizon form with exogenous data: X_train carries y_train's labels, X is partitioned at the
+   cutoff, every test label has its X row, no X_train row at or after an X_test row *)
+Theorem C01_tts_fh_X_relative : forall lo nn f, valid_fh f -> zlast f < nn ->
+  exists ytr yte xtr xte,
+    gen_split_by_fh_X (zrange lo (lo + nn) 1) true nn f tt = Ok ((ytr, yte), (xtr, xte)) /\
+    xtr = ytr /\ ytr ++ xte = zrange lo (lo + nn) 1 /\
+    (forall y, In y yte -> In y xte) /\ (forall a b, In a xtr -> In b xte -> a < b).
+Proof. exact code_tts_fh_relative_X. Qed.
+Print Assumptions C01_tts_fh_X_relative.
+
+Theorem C01_tts_fh_X_absolute : forall lo nn f,
+  f <> [] -> sorted_lt f -> lo < zfirst f -> zlast f < lo + nn ->
+  exists ytr xtr xte,
+    gen_split_by_fh_X (zrange lo (lo + nn) 1) false nn f tt = Ok ((ytr, f), (xtr, xte)) /\
+    xtr = ytr /\ (forall y, In y f -> In y xte) /\ (forall a b, In a xtr -> In b xte -> a < b) /\
+    (forall b, In b xte -> lo <= b < lo + nn).
+Proof. exact code_tts_fh_absolute_X. Qed.
+Print Assumptions C01_tts_fh_X_absolute.
+
 Example C01_nonvacuous : valid ex_cfg /\ feasible ex_cfg = true /\
   window_split Sliding ex_cfg = Ok [([0;1;2;3;4], [5;7]); ([4;5;6], [7;9]); ([6;7;8], [9;11])].
 Proof. exact ex_cfg_valid. Qed.
